@@ -44,11 +44,19 @@ def oracle(c):
     words = []
     for tok in PC.comments_of(c.text):       # a notice may be wrapped over several "# " lines
         words += tok[1:].split()
-    joined = ' '.join(words)
+    # the user's own comments (wrapped family: single marker words) stay; they are not notices
+    marks = [w.strip('.') for w in words if w.strip('.') in MARKS]
+    wanted_marks = marks_of(c.term)
+    if sorted(marks) != sorted(wanted_marks):
+        return 'the user comments %r, expected %r' % (marks, wanted_marks)
+    joined = ' '.join(w for w in words if w.strip('.') not in MARKS)
     found = [int(k) for k in NOTICE.findall(joined)]
-    rest = NOTICE.sub('', joined).strip()
+    rest = NOTICE.sub('', joined).replace('.', ' ').strip()
     if rest:
         return 'unexpected comment text %r' % rest[:80]
+    value = c.value
+    if wanted_marks:
+        value, _sx = valgen.build(PC.strip_comments_term(c.term))
     if n is None:
         big = dict(c.cfg)
         big['max_seq_len'] = 10 ** 9
@@ -60,7 +68,7 @@ def oracle(c):
             return 'truncation notice with max_seq_len=None: %r' % found
         n = 10 ** 9
     notices = []
-    want = truncated(c.value, n, sort, notices)
+    want = truncated(value, n, sort, notices)
     try:
         got = PC.eval_text(c.text)
     except Exception as e:
@@ -70,6 +78,30 @@ def oracle(c):
     if found != notices:
         return 'truncation notices %r, expected %r (omitted counts in document order)' % (found, notices)
     return None
+
+
+MARKS = ('usernote', 'topnote', 'tailnote')
+
+
+def marks_of(t):
+    out = []
+    k = t[0]
+    if k in ('commented', 'trailing'):
+        return [t[2]] + marks_of(t[1])
+    if k in ('list', 'tuple', 'set', 'frozenset'):
+        for x in t[1]:
+            out += marks_of(x)
+    elif k == 'dict':
+        for a, b in t[1]:
+            out += marks_of(a) + marks_of(b)
+    elif k == 'sub':
+        out += marks_of(t[2])
+    elif k == 'call':
+        for x in t[2]:
+            out += marks_of(x)
+        for _k, x in t[3]:
+            out += marks_of(x)
+    return out
 
 
 def cases_for(tier):
@@ -91,6 +123,21 @@ def cases_for(tier):
             w = r.choice([1, 10, 40, 79, 200])
             cases.append(('enum', t, dict(width=w, max_seq_len=msl, indent=r.choice([1, 4]),
                                           sort_dict_keys=r.random() < 0.5)))
+    # the container that is cut carries the user's own comment / trailing comment (single marker words): the
+    # notice with the right count must still be there, top level and nested
+    for t in seqs + subs:
+        if len(t[1] if t[0] != 'sub' else t[2][1]) < 2:
+            continue
+        for wrap in (lambda x: ('trailing', x, 'tailnote'), lambda x: ('commented', x, 'topnote'),
+                     lambda x: ('trailing', ('commented', x, 'topnote'), 'tailnote')):
+            wt = wrap(t)
+            if t[0] == 'frozenset' or (t[0] == 'sub' and t[2][0] == 'frozenset'):
+                if wt[0] == 'trailing':
+                    continue      # known finding C09-trailing-dropped: frozenset's printer takes no trailing comment
+            for shape in (wt, ('list', [wt, ('int', 1)]), ('dict', [(('str', 'k'), wt)]), ('call', 'make', [wt], [('kw', wt)])):
+                for msl in (1, 2, 5, None):
+                    cases.append(('wrapped', shape, dict(width=r.choice([10, 40, 79]), max_seq_len=msl,
+                                                         indent=r.choice([1, 4]))))
     # long containers around the limits that exist in the package (PrettyContext's own default of
     # 1000, powers of two): the limit just below / at / above the length, None, and huge limits
     import sys
